@@ -316,3 +316,68 @@ Example C03_snapshot_parent_mutation_shares :
   view blake2b_256 false (run blake2b_256 true false snap_parent_hist init_state) 2
     <> view blake2b_256 false (run blake2b_256 true false (firstn 4 snap_parent_hist) init_state) 2.
 Proof. exact snapshot_parent_mutation_shares. Qed.
+
+(* ---- closer: the specification-root theorem WITHOUT the prefix-trim / limit-zero guards ----
+   [gxrun hist] (SpecRootGo.v) replays the history on the ordered byte map like mxrun, but the two
+   clears are the Go-rule operations of Trie/GoSpec.v (go_clear_prefix, go_clear_prefix_limit: byte
+   prefix minus one trailing zero nibble; limit 0 leaves the map alone).  [xguards_go hist] keeps only
+   the guards C02_refines_go keeps (C02/Guards.v guard_go_of), on the handle's map at the time of the step:
+     Delete k              guard_delete_exhausted (canonical trie of the map) k = false
+     ClearPrefixLimit p l  guard_limit_order_go m p l = false
+   No guard on ClearPrefix, no guard_trim, no guard_limit_zero. *)
+From C03 Require Import SpecRootGo.
+Theorem C03_snapshot_root_is_spec_root_go :
+  forall (H : list byte -> list byte) (hist : list xstep),
+  xfrozen_parents hist = true -> limits_u32 hist = true -> xguards_go hist = true ->
+  forall j m pv pu, nth_error (gxrun hist) j = Some (m, pv, pu) ->
+  Trie.Spec.bm_sorted m = true
+  /\ exists h, view H true (xrun H true true hist init_state) j = Some (h, m)
+               /\ (pu = true -> h = Trie.Spec.spec_root H (ver_of pv) (Trie.Spec.kv_of_bmap m)).
+Proof. exact snapshot_root_is_spec_root_go. Qed.
+Print Assumptions C03_snapshot_root_is_spec_root_go.
+
+(* the same with the simple Delete guard (no Delete of the empty key; the order guard stays) *)
+Theorem C03_snapshot_root_is_spec_root_go_simple :
+  forall (H : list byte -> list byte) (hist : list xstep),
+  xfrozen_parents hist = true -> limits_u32 hist = true -> xguards_go_simple hist = true ->
+  forall j m pv pu, nth_error (gxrun hist) j = Some (m, pv, pu) ->
+  Trie.Spec.bm_sorted m = true
+  /\ exists h, view H true (xrun H true true hist init_state) j = Some (h, m)
+               /\ (pu = true -> h = Trie.Spec.spec_root H (ver_of pv) (Trie.Spec.kv_of_bmap m)).
+Proof. exact snapshot_root_is_spec_root_go_simple. Qed.
+Print Assumptions C03_snapshot_root_is_spec_root_go_simple.
+
+(* the Go-rule theorem contains C03_snapshot_root_is_spec_root: under xguards the remaining guards
+   hold and the two replays are the same list of maps *)
+Theorem C03_xguards_go_of_xguards :
+  forall hist, xguards hist = true -> xguards_go hist = true /\ gxrun hist = mxrun hist.
+Proof. exact xguards_go_of_xguards. Qed.
+Print Assumptions C03_xguards_go_of_xguards.
+
+(* non-vacuity INSIDE the finding classes: snapshot 1 runs ClearPrefix 0x10 (nibbles 1,0 trimmed to the
+   odd-length nibble prefix 1: 0x12, 0x1201, 0x1234 are removed although none has the byte prefix — an
+   input inside guard_trim), snapshot 2 runs ClearPrefixLimit 0x1200 limit 2 (removes 0x1201) and a
+   limit-0 clear of an absent prefix (inside guard_limit_zero).  xguards is false, the byte-wise replay
+   mxrun leaves all three maps equal, and Hash()/Entries() of every handle are the spec root / the map
+   of the Go-rule replay. *)
+Example C03_spec_root_go_nonvacuous :
+  xfrozen_parents go_hist = true /\ limits_u32 go_hist = true /\ xguards_go go_hist = true
+  /\ xguards_go_simple go_hist = true
+  /\ xguards go_hist = false
+  /\ Trie.Model.guard_trim go_m0 [n2b 16] = true
+  /\ Trie.Model.guard_trim go_m0 [n2b 18; n2b 0] = true
+  /\ Trie.Model.guard_limit_zero go_m2 [n2b 48] 0%N = true
+  /\ gxrun go_hist = [(go_m0, true, true); (go_m1, true, true); (go_m2, true, true)]
+  /\ mxrun go_hist = [(go_m0, true, true); (go_m0, true, true); (go_m0, true, true)]
+  /\ (let st := xrun blake2b_256 true true go_hist init_state in
+      view blake2b_256 true st 0
+        = Some (Trie.Spec.spec_root blake2b_256 Trie.Encode.V1 (Trie.Spec.kv_of_bmap go_m0), go_m0)
+      /\ view blake2b_256 true st 1
+        = Some (Trie.Spec.spec_root blake2b_256 Trie.Encode.V1 (Trie.Spec.kv_of_bmap go_m1), go_m1)
+      /\ view blake2b_256 true st 2
+        = Some (Trie.Spec.spec_root blake2b_256 Trie.Encode.V1 (Trie.Spec.kv_of_bmap go_m2), go_m2))
+  /\ Trie.Spec.spec_root blake2b_256 Trie.Encode.V1 (Trie.Spec.kv_of_bmap go_m1)
+     <> Trie.Spec.spec_root blake2b_256 Trie.Encode.V1 (Trie.Spec.kv_of_bmap go_m0)
+  /\ Trie.Spec.spec_root blake2b_256 Trie.Encode.V1 (Trie.Spec.kv_of_bmap go_m2)
+     <> Trie.Spec.spec_root blake2b_256 Trie.Encode.V1 (Trie.Spec.kv_of_bmap go_m0).
+Proof. exact go_hist_nonvacuous. Qed.
